@@ -17,7 +17,11 @@ RULE = ("A per-connection automaton is fed by the client's ConnectionStateChange
         "endpoints owned by the client) and with the tasks that created the connections. kind=endings: 1-3 "
         "connections per run, incoming (9 init behaviours incl. EOF/RST/silence/garbage/unknown pierce ticket) or "
         "outgoing, plain or obfuscated, type P/D/F, ended by local disconnect (1-3 concurrent calls), remote EOF, "
-        "RST, read timeout, write timeout (peer stops reading), local+remote together, client stop. kind=request / "
+        "RST, read timeout, write timeout (peer stops reading; also with queued messages, whose failing task cancels "
+        "itself), local+remote together, client stop, disconnect() while still CONNECTING (at 1 s, or aimed at the "
+        "instant the 3 s connect completes), cancellation of the task running disconnect() or of the connecting "
+        "request after 0-10 loop steps / 20-200 ms; optionally an application listener for state changes that "
+        "suspends (1-3 loop steps or 50 ms), so that every notification is a suspension point. kind=request / "
         "connect-back: the C11 scenarios (refused, hanging, reset, cancelled after k loop steps ...) judged with "
         "the C10 rules. Non-trivial: >= 1 connection reached CLOSED under observation; distinct = full spec + result.")
 ASSUMPTIONS = [
